@@ -42,8 +42,6 @@ def valid : B → Bool
       | b1 :: b2 :: b3 :: r => (0x80 ≤ b1 && b1 ≤ 0x8F) && isCont b2 && isCont b3 && valid r
       | _ => false
     else false
-termination_by x => x.length
-decreasing_by all_goals simp_wf <;> omega
 
 /-- `str::is_char_boundary(index)` on the bytes of a valid string. -/
 def isCharBoundary (x : B) (i : Nat) : Bool :=
